@@ -357,6 +357,9 @@ func genIngress(g *Rng, tier string) *Plan {
 		for e := 0; e < ne; e++ {
 			st.Edits = append(st.Edits, c05GenEdit(g, &st, flat, k.MaxIssueDelayMs)...)
 		}
+		if g.Bool(0.2) {
+			st.Edits = append(st.Edits, c05Edit{Op: Pick(g, "indent", "reprefix")})
+		}
 		p.Steps = append(p.Steps, mustJSON(st))
 	}
 	return p
@@ -575,6 +578,24 @@ func c05Apply(doc *etree.Document, e c05Edit, idpNow time.Time) {
 		for _, c := range root.ChildElements() {
 			if c.Tag == "Issuer" {
 				root.RemoveChild(c)
+			}
+		}
+	case "indent":
+		// the same request as another SP implementation would serialise it: line breaks and indentation between elements
+		doc.Indent(2)
+	case "reprefix":
+		// ... and with other namespace prefixes (saml2p / saml2, as OpenSAML-based SPs write them)
+		var all []*etree.Element
+		c01All(root, &all)
+		ren := map[string]string{"samlp": "saml2p", "saml": "saml2"}
+		for _, el := range all {
+			if to, ok := ren[el.Space]; ok {
+				el.Space = to
+			}
+			for i, a := range el.Attr {
+				if to, ok := ren[a.Key]; ok && a.Space == "xmlns" {
+					el.Attr[i].Key = to
+				}
 			}
 		}
 	case "redate":
